@@ -190,7 +190,8 @@ def match_known(known, cond, args, got, exp):
     got, exp = jnorm(got), jnorm(exp)
     ns = dict(cond=cond, args=args, got=got, exp=exp, diff=diff_paths(got, exp) if exp is not None else None, **(args or {}))
     g = {'__builtins__': {'len': len, 'abs': abs, 'any': any, 'all': all, 'isinstance': isinstance, 'str': str,
-                          'int': int, 'min': min, 'max': max, 'list': list, 'tuple': tuple, 'bool': bool, 'sorted': sorted}}
+                          'int': int, 'min': min, 'max': max, 'list': list, 'tuple': tuple, 'bool': bool, 'sorted': sorted,
+                          'range': range, 'enumerate': enumerate, 'zip': zip, 'set': set, 'sum': sum}}
     g.update(ns)   # one namespace: comprehensions inside the predicate resolve names in globals
     for k in known:
         try:
